@@ -51,6 +51,9 @@ def instDistinctB (descs : List Desc) : Bool :=
 /-- the node keys phase 1 of Build uses (one per descriptor, one per group) are pairwise distinct -/
 def keysDistinctB (descs : List Desc) : Bool := decide (((graphInput descs).map (·.1)).Nodup)
 
+/-- constructor id 0 (recorded as the producer of registered instance values) belongs to no scoped registration -/
+def ctorZeroB (descs : List Desc) : Bool := descs.all fun d => !(d.ctor == 0) || !(d.life == .scoped)
+
 /-- names of the hypotheses that fail on `descs` (empty = all hold) -/
 def failedHyps (descs : List Desc) : List String :=
   (if sibLifeB descs then [] else ["sibLife"]) ++ (if uniqueIdsB descs then [] else ["uniqueIds"]) ++
@@ -58,6 +61,6 @@ def failedHyps (descs : List Desc) : List String :=
   (if voidAloneB descs then [] else ["voidAlone"]) ++ (if sibCtorB descs then [] else ["sibCtor"]) ++
   (if identUniqueB descs then [] else ["identUnique"]) ++ (if instSibsB descs then [] else ["instSibs"]) ++
   (if instSingletonB descs then [] else ["instSingleton"]) ++ (if instDistinctB descs then [] else ["instDistinct"]) ++
-  (if keysDistinctB descs then [] else ["keysDistinct"])
+  (if keysDistinctB descs then [] else ["keysDistinct"]) ++ (if ctorZeroB descs then [] else ["ctorZero"])
 
 end Godi.Container
